@@ -53,9 +53,15 @@ Definition run_query (leaves : list (list int)) (model_root : list int) (honest 
     let is_honest := existsb (fun ip => N.eqb (fst ip) idx && proofs_eqb (snd ip) p) honest
                      && root_ok && bytes_eqb leafb (padded_leaf leaves idx) in
     let right_empty := all_empty_right leaves idx in
+    (* kinds 13 / 14 carry a SYNTHETIC root (not the case's tree): the maximal-height last-leaf proof made of the
+       canonical empty-subtree roots verifies as it is; lengthened by any further entries it must fail *)
     let viol (c l : bool) :=
-        (c && negb may) || (l && negb (c && right_empty)) || (is_honest && negb c)
-        || (is_honest && right_empty && negb l) in
+        match kind with
+        | 13%N => negb (c && l)
+        | 14%N => c || l
+        | _ => (c && negb may) || (l && negb (c && right_empty)) || (is_honest && negb c)
+               || (is_honest && right_empty && negb l)
+        end in
     N.lor (flag (negb (Bool.eqb mc ic) || negb (Bool.eqb ml il)) 1)
           (N.lor (flag (viol ic il) 2) (flag (viol mc ml) 4))
   end.
